@@ -64,7 +64,7 @@ func (e *retryEngine) Gen(rng *rand.Rand, tier string, n int, emit func(string))
 	emit("t0a0c1 P - pub:1:1 pub:2:0 sub:61.1 start dial- dial- dial+:65533 ack- dial+:65534 ack0 dial+:65533 ack+:0 pub:3:2 pub:4:1")
 	emit("t0a0c1 P lr,wf,la start dial+:10 ack+:0 pub:1:1 pub:2:2 pub:3:0 pub:4:1" + tail)
 	emit("t0a0c1 P - start dial+:10 ack+:0 pub:1:1 disc pub:2:1")
-	emit("t0a0c0 P - start dial+:10 ack+:0 pub:1:1 close pub:2:1 dial+:20 disc ack- dial+:30 ack+:1")  // Disconnect while waiting for CONNACK, refused
+	emit("t0a0c0 P - start dial+:10 ack+:0 pub:1:1 close pub:2:1 dial+:20 disc ack- dial+:30 ack+:1")   // Disconnect while waiting for CONNACK, refused
 	emit("t0a0c0 P - start dial+:10 ack+:0 pub:1:1 close pub:2:1 dial+:20 disc ack+:1 dial+:30 ack+:1") // … accepted: the queued DISCONNECT goes out on the new connection
 	emit("t0a0c0 P - start dial+:10 ack+:0 close disc dial+:30 ack+:1")                                 // Disconnect while waiting to redial
 	emit("t0a0c0 P - start disc dial+:10 ack+:1")                                                       // Disconnect while the first dial is in progress
